@@ -89,6 +89,9 @@ LIFE_MODELS = [
 RECV_MODELS = [
     {"name": "recv", "module": "MC_Recv.tla", "cfg": {"quick": "MC_RecvQuick.cfg", "thorough": "MC_RecvThorough.cfg"},
      "setup": "setups/recvmodel.json", "init_from_setup": True, "timeout": {"quick": 900, "thorough": 10000}},
+    # the same borrower also lends in a bank with zero initial weight and in an isolated-tier bank (nothing may leave them inside a bracket)
+    {"name": "recvz", "module": "MC_Recv.tla", "cfg": {"quick": "MC_RecvZQuick.cfg", "thorough": "MC_RecvZThorough.cfg"},
+     "setup": "setups/recvmodelz.json", "init_from_setup": True, "timeout": {"quick": 900, "thorough": 10000}},
 ]
 
 
